@@ -1208,9 +1208,25 @@ def transform(fn, proceed, to_instrument=True, set_conformer=True):
         # If the function is a closure, we have created a function
         # called #WRAP that takes the closure variables as arguments
         # and returns the function that interests us.
-        actual_fn = glb.pop("#WRAP")(
+        wrapped_fn = glb.pop("#WRAP")(
             *[cell.cell_contents for cell in fn.__closure__]
         )
+        # Use the cells of the original function rather than copies of their
+        # contents, so that the closure variables remain shared with the
+        # enclosing scope (nonlocal assignments, later updates).
+        cells = dict(zip(fn.__code__.co_freevars, fn.__closure__))
+        actual_fn = types.FunctionType(
+            wrapped_fn.__code__,
+            glb,
+            wrapped_fn.__name__,
+            wrapped_fn.__defaults__,
+            tuple(cells[name] for name in wrapped_fn.__code__.co_freevars),
+        )
+        actual_fn.__kwdefaults__ = wrapped_fn.__kwdefaults__
+        actual_fn.__annotations__ = wrapped_fn.__annotations__
+        actual_fn.__doc__ = wrapped_fn.__doc__
+        actual_fn.__qualname__ = wrapped_fn.__qualname__
+        actual_fn.__module__ = wrapped_fn.__module__
     else:
         actual_fn = glb[fname]
 
